@@ -90,9 +90,13 @@ def check_grid(m, sizes=None):
             txt, got, "exists" if want else "does not exist"), "false-negative" if want else "false-positive")
     ones = {(i, j) for i in range(R) for j in range(C) if m[i][j]}
     for inst in insts:
-        t = inst.trunk()
-        rects = list(inst.rectangles())
-        if rects[0] != t:
+        try:
+            t = inst.trunk()
+            rects = list(inst.rectangles())
+            by_side = {side: list(inst.rectangles(side)) for side in "NSEWBT"}
+        except Exception as e:
+            raise Violation("Strop(%r): an offered decomposition raised %s: %s" % (txt, type(e).__name__, e), "instance-raised")
+        if not rects or rects[0] != t:
             raise Violation("Strop(%r): rectangles() does not start with the trunk" % txt, "trunk-first")
         covered = []
         for r in rects:
@@ -107,7 +111,7 @@ def check_grid(m, sizes=None):
         if set(covered) != ones:
             raise Violation("Strop(%r): offered decomposition %s does not cover all one-cells" % (txt, rects), "instance-incomplete")
         for side in "NSEW":
-            for b in inst.rectangles(side):
+            for b in by_side[side]:
                 if side == "N":
                     ok = b.rows.high == t.rows.low - 1 and t.columns.low <= b.columns.low and b.columns.high <= t.columns.high
                 elif side == "S":
@@ -118,9 +122,19 @@ def check_grid(m, sizes=None):
                     ok = b.columns.low == t.columns.high + 1 and t.rows.low <= b.rows.low and b.rows.high <= t.rows.high
                 if not ok:
                     raise Violation("Strop(%r): %s branch %s does not abut the trunk %s within its extent" % (txt, side, b, t), "instance-branch")
-        nb = sum(1 for _ in inst.rectangles("B"))
-        if nb != len(rects) - 1 or sum(1 for _ in inst.rectangles("T")) != 1:
+        nb = len(by_side["B"])
+        if nb != len(rects) - 1 or len(by_side["T"]) != 1:
             raise Violation("Strop(%r): rectangles('B'/'T') inconsistent with rectangles()" % txt, "instance-selectors")
+        # every documented combination of selectors yields the union of what its letters yield, the trunk first
+        for combo in ("TB", "BT", "TNSEW", "TBNSEW", "NS", "WE", "TN", "BN"):
+            try:
+                got = list(inst.rectangles(combo))
+            except Exception as e:
+                raise Violation("Strop(%r): rectangles(%r) raised %s: %s" % (txt, combo, type(e).__name__, e), "instance-raised")
+            sides = "NSEW" if "B" in combo else [x for x in "NSEW" if x in combo]
+            want = ([t] if "T" in combo else []) + [b for x in sides for b in by_side[x]]
+            if got != want:
+                raise Violation("Strop(%r): rectangles(%r) yields %s, its letters separately yield %s" % (txt, combo, got, want), "instance-selectors")
     rows_used = {i for i, _ in ones}
     cols_used = {j for _, j in ones}
     cls = ["decomposable" if want else "not-decomposable"]
@@ -351,8 +365,8 @@ def subchecks():
     return [
         Sub("grids", run_grid, enum=enum_grids, exhaustive=True,
             desc="all 0/1 grids with at most 16 (quick) / 20 (thorough) cells, every rows x cols shape"),
-        Sub("random", run_random, strategy=random_grid_s(), n_quick=6000, n_thorough=200000,
+        Sub("random", run_random, strategy=random_grid_s(), n_quick=6000, n_thorough=200000, fuzz_thorough=4000,
             required=("decomposable", "not-decomposable", "ring", "staircase", "two-components", "near-stog", "explicit-sizes")),
-        Sub("polygons", run_polygon, strategy=polygon_s(), n_quick=4000, n_thorough=100000,
+        Sub("polygons", run_polygon, strategy=polygon_s(), n_quick=4000, n_thorough=100000, fuzz_thorough=2000,
             required=("numpy", "points", "cw", "ccw", "redundant-vertices", ">=3-rectangles", "negative-coordinates", "vertex-at-x=-1")),
     ]
